@@ -475,6 +475,38 @@ def run(st, tier, seed):
                 if s_re["problems"] or pn != sn:
                     res.violations.append({"what": "reserved-name program accepted and its saved state differs from its .pil: %s" % (s_re["problems"] or "names/lengths")[:200],
                                            "input": {"files": fb.texts, "entry": "t"}, "sig": "C16:reserved-name:names", "cmd": "pepper-compiler t"})
+    # directed: template arguments that are not numbers (the system language evaluates an instance argument as a Python expression:
+    # a lambda, a string).  They steer the template (`<rule(t)>`), they are not part of the system that is saved: the compile
+    # must write a .save that reloads in a fresh process and matches the .pil, exactly as with integer arguments
+    for k, (argtext, region, use) in enumerate([("lambda x: x+2, 3", "<rule(t)>N", "<rule(t)>"), ("'S', 4", "<t><rule>", "<t>"),
+                                                ("lambda x: 2*x, 2", "<rule(t)+1>N", "<rule(t)+1>")]):
+        fb = progen.Bundle()
+        fb.texts["Gate.comp"] = ('declare component Gate(rule, t): a -> b\nsequence a = "%s"\nsequence b = "<t>S"\nstrand A = a b\n'
+                                 'structure SA = A : %s. <t>.\n' % (region, use))
+        fb.texts["top.sys"] = "declare system top: ->\nimport Gate\ncomponent g = Gate(%s): s -> u\ncomponent h = Gate(%s): p -> q\n" % (argtext, argtext)
+        fb.entry = "top"
+        inp = {"files": fb.texts, "entry": "top"}
+        res.count("directed:non-numeric-template-argument")
+        with core.scratch("pepper_c16a_") as d:
+            try:
+                out = pipeline.run_pipeline(fb, rng, d)
+            except pipeline.Stage as e:
+                wrote = os.path.exists(os.path.join(d, "out.pil")) and os.path.getsize(os.path.join(d, "out.pil")) > 0
+                if e.stage != "compile" or wrote:
+                    res.violations.append({"what": "a system whose instance arguments are (%s): the specification is written but stage '%s' fails: %r" % (argtext, e.stage, e.exc),
+                                           "input": inp, "sig": "C16:non-numeric-argument:" + e.stage, "cmd": "pepper-compiler top; pepper-finish"})
+                continue
+            res.evaluations += 1
+            r = sub([os.path.join(core.HERE, "snapshot.py"), "out.save"], d)
+            if r.returncode != 0:
+                res.violations.append({"what": "the .save of a system with instance arguments (%s) cannot be reloaded in a fresh process" % argtext, "input": inp,
+                                       "observed": r.stderr[-400:], "sig": "C16:reload", "cmd": "python -c 'from peppercompiler.compiler import load; load(\"out.save\")'"})
+                continue
+            s_re = json.loads(r.stdout)
+            pn, sn = pil_names(out["pil"]), snap_names(s_re["tree"])
+            if s_re["problems"] or pn != sn:
+                res.violations.append({"what": "saved state of a system with instance arguments (%s) differs from its .pil: %s" % (argtext, (s_re["problems"] or "names/lengths")),
+                                       "input": inp, "sig": "C16:names", "cmd": "pepper-compiler top"})
     pk.finish(tier)
     res.programs = res.evaluations
     if drv is not None and reqs:
